@@ -246,8 +246,23 @@ pub enum Op {
     ObjClear(usize, Vec<PathEl>),
     ValueInsert(usize, String, Lit),
     ValueAppend(usize, Lit),
+    /// o[&key] = lit through the Object wrapper (inserts when missing)
+    ObjIndexMutSet(usize, Vec<PathEl>, String, Lit),
+    /// a[idx] = lit through the Array wrapper (panics when out of range)
+    ArrIndexMutSet(usize, Vec<PathEl>, usize, Lit),
+    EntryOrInsertWithKey(usize, Vec<PathEl>, String),
+    /// values_mut() / `for (_, v) in &mut obj`
+    ValuesMutSet(usize, Vec<PathEl>, Lit),
+    /// dst = [front items.., back items.., rest..] taken through Array::into_iter from both ends
+    IntoIterMixed(usize, usize, usize, usize),
     // reads
     Read(usize, Vec<PathEl>),
+    /// read-only queries of an object: contains_key/get/get_key_value/keys/values/len/Index
+    ObjProbe(usize, Vec<PathEl>, String),
+    /// read-only queries of an array: get/first/last/Index/ranges/iterators
+    ArrProbe(usize, Vec<PathEl>, usize, usize, usize),
+    /// Value-level Index by key and position, conversions, Debug/Display
+    ValProbe(usize, Vec<PathEl>, String, usize),
 }
 
 pub const NREG: usize = 4;
@@ -632,6 +647,115 @@ impl Machine {
                 }
                 _ => Out::Val(None),
             },
+            ObjIndexMutSet(r, p, k, l) => {
+                obj!(r, p).insert(k.clone(), l.model());
+                Out::Unit
+            }
+            ArrIndexMutSet(r, p, i, l) => {
+                let v = arr!(r, p);
+                if *i < v.len() {
+                    v[*i] = l.model();
+                    Out::Unit
+                } else {
+                    Out::Panicked
+                }
+            }
+            EntryOrInsertWithKey(r, p, k) => Out::Val(Some(obj!(r, p).entry(k.clone()).or_insert_with(|| M::Str(k.clone())).clone())),
+            ValuesMutSet(r, p, l) => {
+                for x in obj!(r, p).values_mut() {
+                    if matches!(x, M::Null | M::Bool(_)) {
+                        *x = l.model();
+                    }
+                }
+                Out::Unit
+            }
+            IntoIterMixed(s, d, nf, nb) => {
+                if s == d {
+                    return Out::Val(None);
+                }
+                match std::mem::replace(&mut md[*s], M::Null) {
+                    M::Arr(v) => {
+                        let mut it = v.into_iter();
+                        let mut log = String::new();
+                        let mut out = vec![];
+                        for _ in 0..*nf {
+                            log.push_str(&format!("{}{:?};", it.len(), it.size_hint()));
+                            if let Some(x) = it.next() {
+                                out.push(x);
+                            }
+                        }
+                        for _ in 0..*nb {
+                            log.push_str(&format!("{}{:?};", it.len(), it.size_hint()));
+                            if let Some(x) = it.next_back() {
+                                out.push(x);
+                            }
+                        }
+                        log.push_str(&format!("{}{:?};", it.len(), it.size_hint()));
+                        out.extend(it);
+                        md[*d] = M::Arr(out);
+                        Out::Text(log)
+                    }
+                    other => {
+                        md[*s] = other;
+                        Out::Val(None)
+                    }
+                }
+            }
+            ObjProbe(r, p, k) => match m_at(&md[*r], p) {
+                Some(M::Obj(o)) => Out::Text(format!(
+                    "contains={} get={} kv={} empty={} len={} keys={:?} counts={:?} index={}",
+                    o.contains_key(k),
+                    o.get(k).map(to_json).unwrap_or("none".into()),
+                    o.get_key_value(k).map(|(a, b)| format!("{:?}:{}", a, to_json(b))).unwrap_or("none".into()),
+                    o.is_empty(),
+                    o.len(),
+                    o.keys().collect::<Vec<_>>(),
+                    [o.len(); 5],
+                    o.get(k).map(to_json).unwrap_or("panic".into()),
+                )),
+                _ => Out::Val(None),
+            },
+            ArrProbe(r, p, i, a, b) => match m_at(&md[*r], p) {
+                Some(M::Arr(v)) => {
+                    let js = |x: Option<&M>| x.map(to_json).unwrap_or("none".into());
+                    Out::Text(format!(
+                        "empty={} len={} get={} first={} last={} index={} range={} counts={:?} rev={}",
+                        v.is_empty(),
+                        v.len(),
+                        js(v.get(*i)),
+                        js(v.first()),
+                        js(v.last()),
+                        v.get(*i).map(to_json).unwrap_or("panic".into()),
+                        v.get(*a..*b).map(|s| to_json(&M::Arr(s.to_vec()))).unwrap_or("panic".into()),
+                        [v.len(); 4],
+                        to_json(&M::Arr(v.iter().rev().cloned().collect())),
+                    ))
+                }
+                _ => Out::Val(None),
+            },
+            ValProbe(r, p, k, i) => match m_at(&md[*r], p) {
+                Some(x) => {
+                    let by_key = match x {
+                        M::Obj(o) => o.get(k),
+                        _ => None,
+                    };
+                    let by_idx = match x {
+                        M::Arr(v) => v.get(*i),
+                        _ => None,
+                    };
+                    Out::Text(format!(
+                        "key={} idx={} getk={} geti={} obj={} arr={} text={}",
+                        by_key.map(to_json).unwrap_or("null".into()),
+                        by_idx.map(to_json).unwrap_or("null".into()),
+                        by_key.map(to_json).unwrap_or("none".into()),
+                        by_idx.map(to_json).unwrap_or("none".into()),
+                        matches!(x, M::Obj(_)),
+                        matches!(x, M::Arr(_)),
+                        to_json(x),
+                    ))
+                }
+                None => Out::Val(None),
+            },
             Read(r, p) => {
                 let x = m_at(&md[*r], p);
                 Out::Text(match x {
@@ -737,8 +861,16 @@ impl Machine {
             IndexKeySet(r, k, l) => {
                 let v = l.value();
                 let reg = &mut rg[*r];
+                // the index carrier varies with the key (str, String, &String, FastStr, PointerNode)
+                let form = k.len() % 5;
                 may_panic!({
-                    reg[k.as_str()] = v;
+                    match form {
+                        0 => reg[k.as_str()] = v,
+                        1 => reg[&&k.clone()] = v,
+                        2 => reg[k] = v,
+                        3 => reg[&faststr::FastStr::new(k)] = v,
+                        _ => reg[PointerNode::Key(faststr::FastStr::new(k))] = v,
+                    }
                 });
                 Out::Unit
             }
@@ -746,14 +878,20 @@ impl Machine {
                 let v = l.value();
                 let reg = &mut rg[*r];
                 may_panic!({
-                    reg[*i] = v;
+                    match *i % 3 {
+                        0 => reg[*i] = v,
+                        1 => reg[i] = v,
+                        _ => reg[PointerNode::Index(*i)] = v,
+                    }
                 });
                 Out::Unit
             }
             GetMutSet(r, e, l) => {
                 let x = match e {
-                    PathEl::K(k) => rg[*r].get_mut(k.as_str()),
-                    PathEl::I(i) => rg[*r].get_mut(*i),
+                    PathEl::K(k) if k.len() % 2 == 0 => rg[*r].get_mut(k.as_str()),
+                    PathEl::K(k) => rg[*r].get_mut(&PointerNode::from(k.as_str())),
+                    PathEl::I(i) if *i % 2 == 0 => rg[*r].get_mut(*i),
+                    PathEl::I(i) => rg[*r].get_mut(PointerNode::from(i)),
                 };
                 match x {
                     Some(x) => {
@@ -974,6 +1112,130 @@ impl Machine {
                 rg[*r].append_value(l.value());
                 Out::Unit
             }
+            ObjIndexMutSet(r, p, k, l) => {
+                let o = obj!(r, p);
+                let v = l.value();
+                may_panic!({
+                    o[k.as_str()] = v;
+                });
+                Out::Unit
+            }
+            ArrIndexMutSet(r, p, i, l) => {
+                let a = arr!(r, p);
+                let v = l.value();
+                may_panic!({
+                    a[*i] = v;
+                });
+                Out::Unit
+            }
+            EntryOrInsertWithKey(r, p, k) => Out::Val(Some(dump(obj!(r, p).entry(k.as_str()).or_insert_with_key(|kk| Value::from(kk))))),
+            ValuesMutSet(r, p, l) => {
+                let o = obj!(r, p);
+                for (_, x) in o.iter_mut() {
+                    if x.is_null() {
+                        *x = l.value();
+                    }
+                }
+                for (_, x) in &mut *o {
+                    if x.is_boolean() {
+                        *x = l.value();
+                    }
+                }
+                Out::Unit
+            }
+            IntoIterMixed(s, d, nf, nb) => {
+                if s == d || !rg[*s].is_array() {
+                    return Out::Val(None);
+                }
+                let a = rg[*s].take().into_array().expect("array");
+                let mut it = a.into_iter();
+                let mut log = String::new();
+                let mut out: Vec<Value> = vec![];
+                for _ in 0..*nf {
+                    log.push_str(&format!("{}{:?};", it.len(), it.size_hint()));
+                    if let Some(x) = it.next() {
+                        out.push(x);
+                    }
+                }
+                for _ in 0..*nb {
+                    log.push_str(&format!("{}{:?};", it.len(), it.size_hint()));
+                    if let Some(x) = it.next_back() {
+                        out.push(x);
+                    }
+                }
+                log.push_str(&format!("{}{:?};", it.len(), it.size_hint()));
+                out.extend(it);
+                rg[*d] = Value::from(out);
+                Out::Text(log)
+            }
+            ObjProbe(r, p, k) => match rg[*r].pointer(&to_ptr(p)).and_then(|x| x.as_object()) {
+                Some(o) => {
+                    let js = |x: &Value| to_json(&dump(x));
+                    let mut keys: Vec<&str> = o.iter().map(|(k, _)| k).collect();
+                    keys.sort();
+                    let indexed = guarded(|| js(&o[k.as_str()])).unwrap_or("panic".into());
+                    if o.capacity() < o.len() {
+                        return Out::Text("capacity below len".into());
+                    }
+                    Out::Text(format!(
+                        "contains={} get={} kv={} empty={} len={} keys={:?} counts={:?} index={}",
+                        o.contains_key(k),
+                        o.get(k).map(js).unwrap_or("none".into()),
+                        o.get_key_value(k).map(|(a, b)| format!("{:?}:{}", a, js(b))).unwrap_or("none".into()),
+                        o.is_empty(),
+                        o.len(),
+                        keys,
+                        [o.iter().len(), o.iter().size_hint().0, o.iter().count(), o.into_iter().count(), o.iter().map(|(k, _)| k).filter(|k| o.contains_key(k)).count()],
+                        indexed,
+                    ))
+                }
+                None => Out::Val(None),
+            },
+            ArrProbe(r, p, i, a, b) => match rg[*r].pointer(&to_ptr(p)).and_then(|x| x.as_array()) {
+                Some(v) => {
+                    let js = |x: Option<&Value>| x.map(|x| to_json(&dump(x))).unwrap_or("none".into());
+                    let indexed = guarded(|| to_json(&dump(&v[*i]))).unwrap_or("panic".into());
+                    let ranged = guarded(|| to_json(&M::Arr(v[*a..*b].iter().map(dump).collect()))).unwrap_or("panic".into());
+                    if v.capacity() < v.len() {
+                        return Out::Text("capacity below len".into());
+                    }
+                    let sl: &[Value] = v.as_ref();
+                    Out::Text(format!(
+                        "empty={} len={} get={} first={} last={} index={} range={} counts={:?} rev={}",
+                        v.is_empty(),
+                        v.len(),
+                        js(v.get(*i)),
+                        js(v.first()),
+                        js(v.last()),
+                        indexed,
+                        ranged,
+                        [sl.len(), v.iter().len(), v.iter().size_hint().0, v.as_slice().len()],
+                        to_json(&M::Arr(v.iter().rev().map(dump).collect())),
+                    ))
+                }
+                None => Out::Val(None),
+            },
+            ValProbe(r, p, k, i) => match rg[*r].pointer(&to_ptr(p)) {
+                Some(x) => {
+                    let js = |x: &Value| to_json(&dump(x));
+                    let dbg = format!("{:?}", x);
+                    let shown = format!("{}", x);
+                    if dbg.is_empty() || Some(shown.clone()) != sonic_rs::to_string(x).ok() {
+                        return Out::Text(format!("Display {:?} differs from to_string", shown));
+                    }
+                    Out::Text(format!(
+                        "key={} idx={} getk={} geti={} obj={} arr={} text={}",
+                        js(&x[k.as_str()]),
+                        js(&x[*i]),
+                        x.get(k.as_str()).map(js).unwrap_or("none".into()),
+                        x.get(*i).map(js).unwrap_or("none".into()),
+                        x.clone().into_object().is_some(),
+                        x.clone().into_array().is_some(),
+                        js(x),
+                    ))
+                }
+                None => Out::Val(None),
+            },
             Read(r, p) => {
                 let x = rg[*r].pointer(&to_ptr(p));
                 Out::Text(match x {
@@ -1099,7 +1361,44 @@ pub fn rand_op(r: &mut Rng, model: &[M]) -> Op {
             r.below(n as u64 + 1) as usize
         }
     };
-    match r.below(52) {
+    match r.below(61) {
+        52 => {
+            let p = op(r);
+            let k = key(r, &p);
+            ObjIndexMutSet(reg, p, k, rand_lit(r))
+        }
+        53 => {
+            let p = ap(r);
+            let n = alen(&p);
+            ArrIndexMutSet(reg, p, idx(r, n), rand_lit(r))
+        }
+        54 => {
+            let p = op(r);
+            let k = key(r, &p);
+            EntryOrInsertWithKey(reg, p, k)
+        }
+        55 => ValuesMutSet(reg, op(r), rand_lit(r)),
+        56 => IntoIterMixed(reg, other, r.below(4) as usize, r.below(4) as usize),
+        57 => {
+            let p = op(r);
+            let k = key(r, &p);
+            ObjProbe(reg, p, k)
+        }
+        58 => {
+            let p = ap(r);
+            let n = alen(&p);
+            let a = idx(r, n);
+            let b = idx(r, n);
+            ArrProbe(reg, p, idx(r, n), a.min(b), if r.chance(1, 10) { a.max(b) + 1 } else { a.max(b) })
+        }
+        59 => {
+            let p = rand_path(r, m);
+            let k = match m_at(m, &p) {
+                Some(M::Obj(_)) => key(r, &p),
+                _ => (*r.pick(KEYS)).to_string(),
+            };
+            ValProbe(reg, p, k, r.below(5) as usize)
+        }
         0 | 1 => Set(reg, rand_lit(r)),
         2 | 3 => Clone(reg, other),
         4 => Take(reg, other),
